@@ -23,23 +23,36 @@ def raw_case(draw, max_nodes=4, max_eps=3, max_steps=9, trainable=False):
     with_inputs = sorted({c["dst"] for c in conns})
     sup = draw(st.sampled_from(with_inputs[:2] + with_inputs))  # early supervisors leave more downstream (non-ancestor) nodes
     n_eps = draw(st.integers(1, max_eps))
+    # high rate ratio class: one node runs 11-16 times per supervisor step (more than 10 slots of one kind in a partition)
+    others = [nm for nm in names if nm != sup]
+    # (two-node systems get it more often: only there all generations hold the same kinds, which selects the scanned
+    # "uniform" execution path of the partition runner)
+    fast = draw(st.sampled_from(others)) if draw(st.integers(0, 1 if n == 2 else 5)) == 0 else None
     episodes = []
     for _e in range(n_eps):
         verts = {}
         for nm in names:
-            K = draw(st.integers(2 if nm == sup else 1, max_steps))
+            if fast is not None and nm == fast:
+                K = draw(st.integers(20, 34))
+                t0 = draw(st.integers(0, 2))
+                verts[nm] = dict(start=[t0 + k for k in range(K)], end=[t0 + k for k in range(K)])
+                continue
+            K = draw(st.integers(2 if nm == sup else 1, max_steps)) if fast is None else draw(st.integers(3 if nm == sup else 1, 4))
             t = draw(st.integers(0, 6))
             starts, ends = [], []
             for _k in range(K):
-                dur = draw(st.sampled_from([0, 0, 1, 1, 2, 3, 4, 9, 17, 33]))  # mostly short, sometimes spanning many steps of others
+                dur = draw(st.sampled_from([0, 0, 1, 1, 2, 3, 4, 9, 17, 33])) if fast is None else draw(st.integers(0, 2))
                 starts.append(t)
                 ends.append(t + dur)
-                t = t + dur + draw(st.integers(0 if dur > 0 else 1, 5))  # strictly increasing starts, no overlap
+                gap = draw(st.integers(0 if dur > 0 else 1, 5))
+                if fast is not None and nm == sup:
+                    gap = draw(st.integers(11, 16))  # supervisor steps far apart: many fast-node vertices per partition
+                t = t + dur + gap
             verts[nm] = dict(start=starts, end=ends)
         edges = []
         for c in conns:
             Ks = len(verts[c["src"]]["start"])
-            M = draw(st.integers(0, Ks))
+            M = draw(st.integers(0, Ks)) if c["src"] != fast else Ks - draw(st.integers(0, 2))  # the fast node's outputs are (nearly) all sent
             recv, prev = [], 0
             for i in range(M):
                 r = max(verts[c["src"]]["end"][i] + draw(st.integers(0, 6)), prev)
